@@ -19,7 +19,7 @@ var commonAssumptions = []string{
 var propSpecs = []PropSpec{
 	{
 		ID:          "C01",
-		Rules:       []string{"C01.NIL", "C01.EXH", "C01.TA", "C01.NILMAP", "C01.PIPE", "C01.EXIT", "C01.UNSAFE", "C01.NILELEM", "C01.LOOP", "C01.REC", "C01.REPEAT", "C01.IDX"},
+		Rules:       []string{"C01.NIL", "C01.EXH", "C01.TA", "C01.NILMAP", "C01.PIPE", "C01.EXIT", "C01.UNSAFE", "C01.NILELEM", "C01.LOOP", "C01.REC", "C01.REPEAT", "C01.IDX", "C01.EXTPANIC"},
 		Explanation: "Decides necessary conditions for crash freedom in actionlint's own code: no use of a value on a path where the code itself tested it to be nil (C01.NIL). Added after seeded changes and for the 'never hangs' clause: (NILELEM) no parse result that may be nil becomes a sequence/mapping element without a nil test; (REPEAT) the count of strings.Repeat is a sum of lengths/widths that is decremented only when positive; (LOOP) each of the 30 non-range loops has a progress argument (counter with loop-invariant bound, strict suffix, consuming read left on failure, directory fixpoint) or is delegated to the rule that bounds it (lexer bisimulation, grammar extraction, glob progress); (REC) every recursive component descends into a field or element of its argument on every cycle, or is delegated (parser: no left recursion; DFS: colours). (IDX) every index and slice instruction of the module (a superset of the 84 bounds checks the compiler cannot eliminate) is in bounds by a dominating length test, the bound of its own range loop, a constant size, a string search tested against -1, a caller-side guard, the group count of a constant regexp, or one of 26 reviewed reasons with side conditions.",
 		NotDecided:  "panics or hangs inside third-party libraries; stack exhaustion; general index/slice bounds; wall-clock bounds",
 		Assumptions: commonAssumptions,
